@@ -91,7 +91,21 @@ var fmtTerm = map[string]string{"gzip": "FGzip", "legacy": "FLegacy", "zstd": "F
 func main() {
 	ctx := hx.Start()
 	emit := func(c Case) {
-		footer, raw, comp := encode(c)
+		var footer []byte
+		var raw, comp uint64
+		func() {
+			defer func() {
+				if r := recover(); r != nil {
+					footer = nil
+				}
+			}()
+			footer, raw, comp = encode(c)
+		}()
+		if footer == nil {
+			id := ctx.Case("CEnc FGzip 0 0 0 []", c, "panic", false)
+			ctx.Violation(id, fmt.Sprintf("the %s footer encoder panicked for offset %d", c.Fmt, c.Off), nil)
+			return
+		}
 		ctx.Count("fmt." + c.Fmt)
 		ctx.Count("kind." + c.Kind)
 		if c.Kind == "enc" {
